@@ -120,6 +120,7 @@ type SrvWorld struct {
 	lanes      []*laneState
 	blockOwner *laneState
 	nextID     uint32
+	skippedID  uint32
 	opsSent    int
 
 	// peer as sender: windows advertised by the server
@@ -139,6 +140,7 @@ type SrvWorld struct {
 	PingAcks          int
 	PeerEOF           bool // peer saw the server close
 	stallS2C          bool
+	tblWatch          tableWatch
 	connRecv          int64
 	connGranted       int64
 	peerInitWin       int64
@@ -240,6 +242,15 @@ func (w *SrvWorld) noteSettingsSent(kv [][2]uint32) {
 func (w *SrvWorld) noteSettingsAcked() {
 	if w.ackedSettings < len(w.peerSettingsVals) {
 		v := w.peerSettingsVals[w.ackedSettings]
+		if v.hasTable {
+			m := v.table
+			for _, u := range w.peerSettingsVals[w.ackedSettings+1:] {
+				if u.hasTable && u.table > m {
+					m = u.table
+				}
+			}
+			w.tblWatch.acked(m)
+		}
 		if v.hasTable && v.table < w.allowedTable {
 			// permissive: later, not yet acknowledged SETTINGS may raise it again
 			m := v.table
@@ -293,6 +304,7 @@ func NewSrvWorld(sim *Sim, plan *SrvPlan) *SrvWorld {
 		tbl = uint32(plan.Peer.HeaderTableSize)
 	}
 	w.dec = hpack.NewDecoder(tbl, func(f hpack.HeaderField) { w.decOut = append(w.decOut, f) })
+	w.tblWatch = newTableWatch()
 	w.allowedTable = int64(tbl)
 	w.peerInitWin = 65535
 	if plan.Peer.InitialWindow >= 0 {
@@ -617,12 +629,17 @@ func (w *SrvWorld) onPeerFrame(f *Frame) {
 			w.contStream = 0
 			ps.blockOpen = false
 			w.decOut = w.decOut[:0]
+			if l, ok := w.tblWatch.beforeBlock(); ok {
+				w.dec.SetMaxDynamicTableSize(uint32(l))
+			}
 			_, err := w.dec.Write(ps.blockBuf)
 			if err == nil {
 				err = w.dec.Close()
 			}
 			if err != nil {
 				ps.DecodeErr = err.Error()
+			} else {
+				w.tblWatch.block(ps.blockBuf)
 			}
 			var hfs []HF
 			for _, h := range w.decOut {
@@ -766,6 +783,8 @@ func (w *SrvWorld) refID(l *laneState, op *Op) uint32 {
 		return w.lanes[op.LaneRef-1].id
 	}
 	switch {
+	case op.StreamRef == -2:
+		return w.skippedID
 	case op.StreamRef < 0:
 		return 0
 	case op.StreamRef > 0:
@@ -780,7 +799,11 @@ func (w *SrvWorld) laneEnabled(l *laneState) bool {
 		return false
 	}
 	if w.blockOwner != nil && w.blockOwner != l {
-		return false
+		// the rest of the owner's header block may come from another lane, as raw CONTINUATION frames on its stream
+		if !(l.next < len(l.lane.Ops) && len(l.queue) == 0 && l.lane.Ops[l.next].Kind == "raw" && l.lane.Ops[l.next].RawType == FContinuation &&
+			l.lane.Ops[l.next].LaneRef == w.blockOwner.idx+1) {
+			return false
+		}
 	}
 	if len(l.queue) > 0 {
 		return true
@@ -892,6 +915,10 @@ func (w *SrvWorld) laneSend(l *laneState) {
 	l.opsSent++
 	w.opsSent++
 	if l.id == 0 && l.lane.OpensStream && op.StreamRef == 0 && op.LaneRef == 0 && op.Kind != "settings" && op.Kind != "ping" && op.Kind != "goaway" {
+		if l.lane.SkipID {
+			w.skippedID = w.nextID
+			w.nextID += 2
+		}
 		l.id = w.nextID
 		l.openedAt = w.sim.Steps
 		w.nextID += 2
@@ -1016,8 +1043,9 @@ func (w *SrvWorld) laneSend(l *laneState) {
 		var pl []byte
 		if op.RawHex != "" {
 			pl, _ = hex.DecodeString(op.RawHex)
-		} else {
-			pl = make([]byte, op.RawLen)
+		}
+		if op.RawLen > 0 {
+			pl = append(pl, make([]byte, op.RawLen)...)
 		}
 		w.c2s.Inject(w.fw.Raw(op.RawType, op.RawFlags, id, pl))
 	case "wait-resp", "wait-handler", "wait-resp-start":
@@ -1066,7 +1094,7 @@ func (w *SrvWorld) EnvActions() []Action {
 	}
 	// gates
 	for _, g := range w.gates {
-		if !g.open && !(w.plan.GateMode == "hold" && w.phase < 4) {
+		if !g.open && !(w.plan.GateMode == "hold" && w.phase < 4) && !(w.plan.GateMode == "walk-hold" && w.phase < 1) {
 			g := g
 			wt := 5
 			if w.phase >= 1 {
